@@ -6,7 +6,15 @@ From SygmaV Require Export Lib.RunLib Model.C17.
 Local Open Scope N_scope.
 
 Inductive case :=
-| Hist (init : kv) (faults : list bool) (ops : list op) (impl : list obs).
+| Hist (init : kv) (faults : list bool) (ops : list op) (impl : list obs)
+(* goroutines sharing one store: per thread its own keys, fault schedule, operations and what it
+   observed (store contents: the keys it can name); the whole store at the end; the number of store
+   calls / entries with a key the calling thread cannot name *)
+| Conc (init : kv) (RE RO : list key) (threads : list (list key * list bool * list op * list obs))
+       (fin : kv) (stray : nat)
+(* thorough tier: generated concurrent cases in a child process built with the race detector; [races] =
+   reports that involve the relayer's own code.  Supporting evidence only: never a judge rejection. *)
+| RaceRun (ran : bool) (races : nat).
 
 Definition op_keys (o : op) : list key :=
   match o with
@@ -53,22 +61,53 @@ Fixpoint all_obs_eqb (univ : list key) (a b : list obs) : bool :=
   | _, _ => false
   end.
 
+Definition th_own (t : list key * list bool * list op * list obs) : list key := fst (fst (fst t)).
+Definition th_thread (t : list key * list bool * list op * list obs) : thread :=
+  mkThread (init_state [] (snd (fst (fst t)))) (snd (fst t)).
+
 Definition agree (c : case) : bool :=
   match c with
   | Hist init faults ops impl =>
       forallb wf_op ops && all_obs_eqb (universe init ops) (run ops (init_state init faults)) impl
+  | Conc init RE RO threads fin stray =>
+      (* the layout the theorems need; every thread saw what the sequential model sees alone
+         (C17_conc_projection); the whole store at the end is the union of the per-thread models and
+         holds no other key *)
+      conc_wf (map th_own threads) RE RO init (map th_thread threads)
+      && Nat.eqb stray 0
+      && forallb (fun t => match t with (K, faults, ops, impl) =>
+                   let V := K ++ RE ++ RO in
+                   let x0 := init_state init faults in
+                   all_obs_eqb V (run ops x0) impl
+                   && forallb (fun k => status_eqb (get fin k) (get (s_kv (st (final ops x0))) k)) V
+                 end) threads
+      && forallb (fun e => memk (fst e) (flat_map th_own threads ++ RE ++ RO)) fin
+  | RaceRun _ races => Nat.eqb races 0
   end.
 
 Definition judge (c : case) : bool :=
   match c with
   | Hist init faults ops impl => hist_ok (universe init ops) init ops impl
+  | Conc init RE RO threads fin _ =>
+      (* per thread: the sequential judge on its own history, and what it last saw executed is executed
+         at the end (C17_conc_judge_accepts: so it is in every interleaving of the model) *)
+      forallb (fun t => match t with (K, faults, ops, impl) => thread_judge (K ++ RE ++ RO) init ops impl fin end) threads
+  | RaceRun _ _ => true
   end.
 
 (* model branches reached by the history: bit 0 a retry re-emitted something, bit 1 a retry withheld
    a selected deposit, bit 2 a delivery failed on a store error, bit 3 a store call failed,
-   bit 4 some proposal is executed at the end *)
+   bit 4 some proposal is executed at the end, bit 5 a concurrent case *)
 Definition tag (c : case) : N :=
   match c with
+  | RaceRun _ _ => 64
+  | Conc init RE RO threads _ _ =>
+      32 + (if existsb (fun t => match t with (_, faults, ops, _) =>
+                          existsb (fun ob => match ob with (ORetry (_ :: _), _, _) => true | _ => false end)
+                                  (run ops (init_state init faults)) end) threads then 1 else 0)
+         + (if existsb (fun t => match t with (_, faults, ops, _) =>
+                          existsb (fun ob => match ob with (_, _ :: _, _) => true | _ => false end)
+                                  (run ops (init_state init faults)) end) threads then 8 else 0)
   | Hist init faults ops _ =>
       let r := run ops (init_state init faults) in
       (if existsb (fun ob => match ob with (ORetry (_ :: _), _, _) => true | _ => false end) r then 1 else 0)
